@@ -93,6 +93,7 @@ func (p *c05) Cases(tier string, emit func(interface{})) {
 	emit(c05Case{Kind: "enum", Base: "enumeration"})
 	emit(c05Case{Kind: "bits", Base: "bits"})
 	emit(c05Case{Kind: "identityref", Base: "identityref"})
+	emit(c05Case{Kind: "identityref2", Base: "identityref"})
 	emit(c05Case{Kind: "union", Base: "union"})
 }
 
@@ -214,6 +215,8 @@ func c05Module(c c05Case) (text string) {
 		sb.WriteString("  leaf x { type bits { bit a; bit b; bit c { position 5; } } }\n  leaf-list xs { type string; }\n")
 	case "identityref":
 		sb.WriteString("  identity base-id; identity other; identity id-a { base base-id; } identity id-b { base id-a; }\n  leaf x { type identityref { base base-id; } }\n  leaf-list xs { type identityref { base base-id; } }\n")
+	case "identityref2":
+		sb.WriteString("  identity b1; identity b2; identity unrelated; identity only1 { base b1; } identity only2 { base b2; } identity deep1 { base only1; } identity both { base b1; base b2; } identity both2 { base both; }\n  leaf x { type identityref { base b1; base b2; } }\n  leaf-list xs { type identityref { base b1; base b2; } }\n")
 	case "union":
 		sb.WriteString("  leaf x { type union { type int32 { range \"0..10\"; } type string { length \"2\"; } } }\n  leaf-list xs { type string; }\n")
 	}
@@ -452,6 +455,18 @@ func c05OtherCands(c c05Case, m *meta.Module) []c05Cand {
 		}
 		for _, bad := range []string{"z", "a z", "z a", "A", "a,b"} {
 			out = append(out, c05Cand{raw: bad, json: q(bad), xml: bad, accept: false, class: "unknown-name"})
+		}
+		// typed values handed to Set: names that are not declared, names and positions that disagree
+		out = append(out, c05Cand{raw: val.Bits{Labels: []string{"zz"}, Positions: 1 << 9}, typed: val.Bits{Labels: []string{"zz"}, Positions: 1 << 9}, accept: false, class: "undeclared-typed-bits"})
+		out = append(out, c05Cand{raw: val.Bits{Labels: []string{"a"}, Positions: 1 << 7}, typed: val.Bits{Labels: []string{"a"}, Positions: 1 << 7}, accept: false, class: "typed-bits-names-disagree-with-positions"})
+		out = append(out, c05Cand{raw: "a c", json: q("a c"), xml: "a c", typed: val.Bits{Labels: []string{"a", "c"}, Positions: 1 | 1<<5}, accept: true, class: "declared-typed-bits"})
+	case "identityref2":
+		// two bases: only what is derived from both (RFC 7950 9.10.2)
+		for _, good := range []string{"both", "both2"} {
+			out = append(out, c05Cand{raw: good, json: q(good), xml: good, accept: true, class: "derived-from-all-bases", canon: "id:" + good})
+		}
+		for _, bad := range []string{"only1", "only2", "deep1", "b1", "b2", "unrelated"} {
+			out = append(out, c05Cand{raw: bad, json: q(bad), xml: bad, accept: false, class: "not-derived-from-all-bases"})
 		}
 	case "identityref":
 		for _, good := range []string{"id-a", "id-b", "r:id-a"} {
